@@ -85,6 +85,13 @@ def aux_obs(pattern, hi, t):
     src = gen.wrapper("c01", f"c01.gate_malformed({ov}, {nv}, k)", ints=ints,
                       pres=[f"c01.ok_state({ov}, 0) and c01.ok_state({nv}, 0)"], header=f"C01 gate_malformed {pattern}")
     yield Ob(f"L1.gate_malformed[{pattern}]", "c01.py", "ob", {"pattern": pattern}, timeout=t, source=src)
+    if pattern == "MAJOR[.MINOR[.PATCH]]":
+        ints2 = [("o_" + n, *small[n]) for n in names] + [("n_" + n, *small[n]) for n in names]
+        src = gen.wrapper("c01", f"c01.gate_alt_spelling({ov}, {nv}, kind)", ints=ints2, fixed={"kind": 2},
+                          pres=[f"c01.ok_state({ov}, 0) and c01.ok_state({nv}, 0)"], header=f"C01 gate_alt_spelling {pattern} kind 2")
+        yield Ob(f"L1.gate_alt_spelling[{pattern}; every optional part written (1 -> 1.0.0)]", "c01.py", "ob",
+                 {"pattern": pattern}, timeout=t, source=src)
+        return
     if pattern == "MAJOR.MINOR[.PATCH]":
         for kind in (0, 1):
             ints2 = [("o_" + n, *small[n]) for n in names] + [("n_" + n, *small[n]) for n in names]
@@ -132,7 +139,7 @@ def obligations(tier):
         obs += list(gate_obs("MAJOR.MINOR", hi, t))
         obs += list(gate_obs("MAJOR.MINOR[.PATCH]", hi, t, all_small=True))
         obs += list(gate_obs("vYYYY.BUILD[-TAG]", hi, t, quick=True))
-        for pat in ("MAJOR.MINOR", "MAJOR.MINOR[.PATCH]"):
+        for pat in ("MAJOR.MINOR", "MAJOR.MINOR[.PATCH]", "MAJOR[.MINOR[.PATCH]]"):
             obs += [o for o in aux_obs(pat, hi, t) if pat == "MAJOR.MINOR" or "alt_spelling" in o.name]
         obs += list(e2e_obs("vMAJOR.MINOR", 9, t))
     else:
